@@ -40,6 +40,8 @@ POOL = [
     # recurse naming, by keyword, a positional parameter that only OTHER methods declare (the leaf below)
     (("raw", "list"), 0, "return ['w'] + [recurse(a, y=7) for a in x]"),
     (("K", 1), 0, "return ('leaf', 13, y)", None, [("y", ("obj",), True)]),
+    # a lambda whose own parameter is called recurse, BEFORE the call that must reach this very function (and the default-binding idiom)
+    (("raw", "list"), 0, "pick = lambda recurse: recurse\ng = lambda v, recurse=recurse: recurse(v)\nreturn ['s', pick(1)] + [g(a) for a in x[:1]] + [recurse(a) for a in x[1:]]"),
 ]
 
 
@@ -345,7 +347,7 @@ def main(tier, seed):
     results = runner.pmap("props.c08", "explore_shape", shapes, kw, chunksize=2)
     return runner.finish(
         PID, tier, seed, t0, results,
-        bounds=dict(classes=3, nodes="<= 5 functions", pool="14 methods (a leaf on type[K0]; one defined in a factory, reaching recurse through a closure cell): list/dict containers via recurse, tuple container naming the root function, an "
+        bounds=dict(classes=3, nodes="<= 5 functions", pool="15 methods (a leaf on type[K0]; one defined in a factory, reaching recurse through a closure cell): list/dict containers via recurse, tuple container naming the root function, an "
                     "overriding list container, leaves on K0/K1/K2/object (one overriding, one using call_next)",
                     graphs="random build histories of 3-6 operations (new / copy / variant / add_mixins / register), half of them followed by a registration on an already used leaf node, + 7 documented patterns; forests "
                            "with fan-in <= 2, depth <= 4", inputs="6 nested inputs (lists, tuples, dicts to depth 3 over instances of the 3 classes and object())",
